@@ -178,11 +178,15 @@ class TravBase(Check):
             # --- a chain 850 levels deep (the recursive forms still manage it) with links from its far end back
             #     to vertices listed hundreds of levels earlier, and a branch hanging below that depth
             n = 850
-            lines = ["reset"] + ["vertex V"] * (n + 2)
+            lines = ["reset"] + ["vertex V"] * (n + 6)
             for i in range(n - 1):
                 lines.append("edge D V%d V%d" % (i, i + 1))
             lines += ["edge D V%d V3" % (n - 1), "edge D V%d V%d" % (n - 2, n), "edge D V%d V%d" % (n, n + 1),
                       "edge U V%d V500" % (n + 1)]
+            # a diamond at the far end (u -> a, u -> b, a -> b, a -> e, b -> d): b is a neighbour of two expansions that are
+            # pending at the same time, hundreds of levels down
+            u_, a_, b_, e_, d_ = n - 1, n + 2, n + 3, n + 4, n + 5
+            lines += ["edge D V%d V%d" % pq for pq in [(u_, a_), (u_, b_), (a_, b_), (a_, e_), (b_, d_)]]
             kinds_ = ("bfs", "dfsr", "dfsi") if self.searches else ("bft", "dftr", "dfti")
             qs = ["%s - V0 0 1" % t for t in kinds_] if self.searches else ["%s - V0 0 1 - - list" % t for t in kinds_]
             yield run_script(real, lines + qs)
@@ -309,6 +313,12 @@ class TravBase(Check):
         qs = self.queries(nv, rng, full)
         if sample and len(qs) > sample:
             qs = rng.sample(qs, sample)
+        if not self.searches and nv >= 2 and rng.random() < 0.5:
+            # a generator requested BEFORE the universe changes and consumed after: it reads membership when it runs
+            for _ in range(2):
+                t, s, j = rng.choice(["bft", "dftr", "dfti"]), rng.randrange(nv), rng.randrange(nv)
+                q = "%s V%d V%d %d 1 - -" % (t, nv, s, rng.choice([0, 1]))
+                qs += ["ghold " + q, rng.choice(["urem V%d V%d", "uadd V%d V%d"]) % (nv, j), q + " gen", q + " list"]
         if rng.random() < 0.3:
             lines.append("flag on")
             # read-only calls of other kinds in between must not disturb the order of later traversals
